@@ -21,6 +21,7 @@ fn profile() -> ScenarioProfile {
         rf: true,
         ops: vec![Op::Remove, Op::Remove, Op::Link, Op::SoftLink, Op::Move],
         files: (4, 14),
+        hardlinks: 3,
     }
 }
 
